@@ -108,7 +108,14 @@ ASSUMPTIONS = [
     'how streaming ends: KeyboardInterrupt / SystemExit themselves are represented by a server-defined BaseException subclass (asyncio re-raises the two real ones out of the event loop); what leaves the '
     'application after an injected failure may be any of the injected classes (close() raising while another error propagates replaces it; the statement only fixes the close() count and the framing)',
 ]
-RULE = ('[two dimensions added after seeds C05_7 / C05_8: (iii) HOW streaming ends - a dedicated run over streamed plans (file-like and iterator stream objects, with and without close(), '
+RULE = ('[dimension added after seed C05_10: (v) response HEADERS SET BY THE APPLICATION that speak about framing / the connection are an input of every plan (main loop, stream endings, render errors, SSE): '
+        'with probability 0.4 1-3 of Transfer-Encoding (chunked / identity / gzip / "gzip, chunked", half of these plans; sometimes built by two append_header calls), Connection, Content-Encoding, Trailer, TE, Upgrade, Keep-Alive, Content-Range, '
+        'each spelled in one of three cases and set by set_header / append_header / set_headers(dict) / set_headers(list of pairs), before or after the other headers; the same headers travel in the `headers` argument of a raised HTTPError / HTTPStatus; '
+        'a raised HTTPStatus may carry a body (text=); the explicit Content-Length is now also the RIGHT one for the non-streamed body (40 % of the plans that set one; otherwise 3 / 999 / 7) and is set through resp.content_length, set_header or set_headers; '
+        'on both stacks, for every body source. The statement decides: non-HEAD, body-bearing status, non-streamed body => exactly one Content-Length = number of body bytes sent, whatever else the application set '
+        '(the unchanged tree overwrites a wrong application-set Content-Length on both stacks; for a streamed body the application\'s declared value passes through: oracle stream-content-length). '
+        'The header dict the responder leaves is an input of the Fz / Wg / Fh / Fe / Sse models, so the correspondence sees the same headers] '
+        '[two dimensions added after seeds C05_7 / C05_8: (iii) HOW streaming ends - a dedicated run over streamed plans (file-like and iterator stream objects, with and without close(), '
         'None marker or exhaustion): the stream\'s failing call at every position (first call ... the call after the last item), the server\'s send at every index and close() itself each raise an '
         'Exception subclass or one of the BaseException-only classes asyncio.CancelledError, GeneratorExit, a server-defined BaseException (what `except Exception` does not see); the ASGI application runs '
         'in a task of its own that the server really cancels (task.cancel() from the event loop) while the application is suspended in every stream call, in every send and in close(); close() raising '
@@ -162,7 +169,9 @@ def final_state(R, p, asgi):
             s['data'] = b'<error representation>'
             s['ct_by_app'] = True  # set by the error serializer together with a representation
             s['error_body'] = True
-        s['expected_status'] = {'notfound': 404, 'httperror': 409, 'redirect': 301, 'status': 204, 'exception': 500}[k]
+        if k == 'status_body':
+            s['text'] = R.STATUS_BODY_TEXT     # documented: HTTPStatus(status, text=...) - "String representing response content"
+        s['expected_status'] = {'notfound': 404, 'httperror': 409, 'redirect': 301, 'status': 204, 'status_body': 202, 'exception': 500}[k]
     src = next((x for x in ('text', 'data', 'media', 'stream') if s[x] is not None), None)
     s['src'] = src
     s['render_fails'] = False
@@ -659,7 +668,7 @@ def run(ctx):
                 f"cookies{sfx}={';'.join(R.hs(c) for c in snap['cookies']) or '.'}")
 
     def gen_rerr(rnd):
-        p = R.gen_plan(rnd, sse_ok=False, errors_ok=False)
+        p = R.gen_plan(rnd, sse_ok=False, errors_ok=False, framing_ok=True)
         p['resp_class'] = rnd.choice(['std', 'std', 'sub'])
         p['extra_set_cookie'] = False
         if rnd.random() < 0.85:
@@ -683,7 +692,7 @@ def run(ctx):
     def gen_rerr2(rnd):
         if rnd.random() < 0.06:
             return 'raise'
-        p2 = R.gen_plan(rnd, sse_ok=False, errors_ok=False)
+        p2 = R.gen_plan(rnd, sse_ok=False, errors_ok=False, framing_ok=True)
         p2['extra_set_cookie'] = False
         r = rnd.random()
         if r < 0.3:      # what the handler leaves cannot be rendered either
@@ -1088,7 +1097,7 @@ def run(ctx):
 
     def sse_run(n):
         for _ in range(n):
-            p = R.gen_plan(rnd, sse_ok=False, errors_ok=False)
+            p = R.gen_plan(rnd, sse_ok=False, errors_ok=False, framing_ok=True)
             if rnd.random() < 0.7:
                 p['method'] = rnd.choice(['GET', 'GET', 'POST'])
             if rnd.random() < 0.6:
@@ -1117,6 +1126,20 @@ def run(ctx):
             if nev and rnd.random() < 0.5:   # a combination of faults
                 q = dict(p, sse_fail=rnd.choice([None, rnd.randint(0, nev)]), sse_disc=rnd.choice([None, rnd.randint(0, nev - 1)]))
                 one(q, rnd.choice([None, rnd.randint(0, nev + 2)]), 'combo')
+
+    def count_framing(p, fs):
+        """The evidence table of the application-set headers that interact with framing, by body source."""
+        src = str(fs['src']) + ('_raised_' + p['raise'] if p['raise'] else '')
+        if p['cl'] is not None:
+            right = R.right_length(p) is not None and str(p['cl']) == str(R.right_length(p))
+            ctx.count('explicit_content_length_' + ('right' if right else 'wrong') + '_set_by_' + p.get('cl_how', 'property'))
+        for how, name, value in p.get('framing') or []:
+            ctx.count('app_header_' + name.lower() + '_src_' + src)
+            ctx.count('app_header_set_by_' + how)
+            if name.lower() == 'transfer-encoding':
+                ctx.count('app_header_transfer-encoding_value_' + value.replace(', ', '+') + ('_with_explicit_content_length' if p['cl'] is not None else ''))
+        if not p.get('framing'):
+            ctx.count('app_header_no_framing_header')
 
     def count_dims(p):
         """The evidence table of the two history-like dimensions: how the stream ends, and assignment / render histories."""
@@ -1150,7 +1173,7 @@ def run(ctx):
 
     def gen_streamed(rnd):
         """a plan whose body is taken from a stream object with (mostly) a close() method"""
-        p = R.gen_plan(rnd, sse_ok=False, errors_ok=False, none_ok=True, obj_ok=True)
+        p = R.gen_plan(rnd, sse_ok=False, errors_ok=False, none_ok=True, obj_ok=True, framing_ok=True)
         p.update(text=None, data=None, media=None, resp_class=rnd.choice(['std', 'std', 'sub']), extra_set_cookie=False)
         if rnd.random() < 0.85:
             p['method'] = rnd.choice(['GET', 'GET', 'POST', 'PUT'])
@@ -1242,10 +1265,11 @@ def run(ctx):
         if hangs[0] >= 2:
             ctx.notes.append(f'shard {ctx.shard[0]}: stopped after case {ci}: the application repeatedly did not return (reported as oracle failures)')
             break
-        p = R.gen_plan(rnd, hist_ok=True, none_ok=True, obj_ok=True)
+        p = R.gen_plan(rnd, hist_ok=True, none_ok=True, obj_ok=True, framing_ok=True)
         fs = final_state(R, p, False)
         wrec, arec = both(p)
         count_dims(p)
+        count_framing(p, fs)
         ctx.count('status_form_' + p['status_form'])
         ctx.count('src_' + str(fs['src']))
         ctx.count('method_' + p['method'])
